@@ -143,6 +143,12 @@ func ScBytes(v Mathint) string { return "" }
 //@ ensures len(ScBytes(v)) == 32 && (v >= 0 && v < EdL() ==> LE(ScBytes(v)) == v)
 func axScBytes(v Mathint) {}
 
+// L < 2^253: the encoding of a reduced scalar has its top three bits clear.
+//
+//@ lemma auto trusted
+//@ ensures len(s) == 32 && LE(s) < EdL() ==> s[31]&224 == 0
+func axScTopBits(s string) {}
+
 //@ func (s *Scalar) Bytes() (res []byte)
 //@ trusted kernel model
 //@ ensures string(res) == ScBytes(ScVal(s)) && len(res) == 32 && fresh(res)
